@@ -332,6 +332,42 @@ template<class C> struct Seg {
     for (int u = 0; u < NU; u++) if (un[u]) { int j = (int)g.below(NS); opUResult(u, j); if (sk[j]) opObs(j); }
   }
 
+  // unions of inputs living in strongly different weight regimes: a sketch of many very light items against one of few
+  // heavy items (weight ratio 10^2..10^4, integers), different k and fill (exact / estimation mode on either side),
+  // both orders, lvalue and rvalue, max_k below / between / above the inputs' k; results observed, updated, fed on
+  void runRegimes(long rounds) {
+    for (long r = 0; r < rounds; r++) {
+      long kl = g.range(1, 12), kh = g.range(1, 12);
+      long nl = g.range(6, 70), nh = g.range(1, 9);
+      long lw = g.chance(60) ? 1 : g.range(1, 4);
+      long hw = g.chance(50) ? (128L << g.below(7)) : 1000 * g.range(1, 9);
+      opNew(0, kl); for (long t = 0; t < nl; t++) opUpdate(0, g.chance(80) ? lw : g.range(1, 4), g.chance(40));
+      opNew(1, kh); for (long t = 0; t < nh; t++) opUpdate(1, g.chance(75) ? hw : hw / 2 + g.range(0, 9), g.chance(40));
+      if (!sk[0] || !sk[1]) continue;
+      long mk = g.chance(34) ? g.range(1, std::min(kl, kh)) : g.chance(50) ? g.range(std::min(kl, kh), std::max(kl, kh)) : g.range(std::max(kl, kh), 40);
+      opUNew(0, mk);
+      int first = (int)(r % 2), second = 1 - first;
+      bool keep = g.chance(50);                      // keep the inputs (lvalue) to feed a second union in the other order
+      opUUpdate(0, first, keep ? false : g.chance(50)); if (!un[0]) continue;
+      if (g.chance(30)) { opUResult(0, 2); if (sk[2]) opObs(2); }
+      if (sk[second]) opUUpdate(0, second, keep ? false : g.chance(50));
+      if (!un[0]) continue;
+      opUResult(0, 2);
+      if (sk[2]) {
+        opObs(2);
+        long more = g.range(1, 5);
+        for (long t = 0; t < more && sk[2]; t++) opUpdate(2, g.chance(50) ? lw : hw, g.chance(40));
+        if (sk[2]) opObs(2);
+      }
+      if (keep && sk[0] && sk[1]) {                  // same inputs, other order, rvalue
+        opUNew(1, mk); opUUpdate(1, second, true); if (un[1] && sk[first]) opUUpdate(1, first, true);
+        if (un[1]) { opUResult(1, 3); if (sk[3]) opObs(3); }
+      }
+      for (int i = 0; i < NS; i++) drop(i);
+      for (int u = 0; u < NU; u++) udrop(u);
+    }
+  }
+
   // tier B (design model) conformance: one sketch, updates only; every event carries the size h of the H region as
   // printed by to_string(), so that the design model's H / R split can be compared (spec/TraceVarOptDesign.tla)
   static long parse_h(const std::string& t) { size_t p = t.find("   h            : "); return p == std::string::npos ? -1 : atol(t.c_str() + p + 18); }
@@ -433,6 +469,11 @@ int main(int argc, char** argv) {
     { Ev("Begin").i("seg", segno++).str("type", "i64").str("kind", "directed-tie").emit(); Seg<ConvI> s(g, maxk); s.directedTie(); }
     { Ev("Begin").i("seg", segno++).str("type", "str").str("kind", "directed-pseudo-exact").emit(); Seg<ConvS> s(g, maxk); s.directedPseudoExact(); }
     { Ev("Begin").i("seg", segno++).str("type", "i64").str("kind", "directed-result-heap").emit(); Seg<ConvI> s(g, maxk); s.directedResultHeap(); }
+  }
+  long regimes = vt::argl(argc, argv, "--regimes", design ? 0 : 16);
+  if (regimes > 0) {
+    { Ev("Begin").i("seg", segno++).str("type", "i64").str("kind", "regimes").emit(); Seg<ConvI> s(g, maxk); s.runRegimes(regimes); }
+    { Ev("Begin").i("seg", segno++).str("type", "str").str("kind", "regimes").emit(); Seg<ConvS> s(g, maxk); s.runRegimes(regimes / 2); }
   }
   for (long seg = 0; seg < segments; seg++) {
     bool str = (seg % 2 == 1);
